@@ -171,7 +171,8 @@ class Scratch:
             body = open(os.path.join(VERIF, 'contracts', 'kani', a['module'])).read()
             modname = a.get('modname', 'vx_' + re.sub(r'\W', '_', os.path.splitext(a['module'])[0]))
             with open(p, 'a') as f:
-                f.write(f'\n#[cfg(kani)]\n#[allow(unused, clippy::all)]\nmod {modname} {{\n{body}\n}}\n')
+                vis = 'pub(crate) ' if a.get('crate_visible') else ''
+                f.write(f'\n#[cfg(kani)]\n#[allow(unused, clippy::all)]\n{vis}mod {modname} {{\n{body}\n}}\n')
             if a.get('crate_attrs'):
                 # crate-level feature gates for loop contracts go to lib.rs top
                 lib = os.path.join(self.dir, unit.crate, 'src', 'lib.rs')
